@@ -5,6 +5,7 @@ Driver for C10.  One request per line, `k=v` fields separated by single spaces:
   op=canon T=<integer type|decimal|boolean> (I=<int> | S=<lexical form> | B=<0|1>)
   op=greg K=<time|gDay|gMonth|gMonthDay> S=<cps>   op=lang S=<cps>   op=name K=<NCName|Name|NMTOKEN|QName> S=<cps>
   op=date K=<date|dateTime|dateTimeStamp|gYear|gYearMonth> V=<10|11> S=<cps>   op=str K=<string|untypedAtomic|normalizedString|token> S=<cps>
+  op=qres N=<prefix cps>/<uri cps>|… (`-` = none) D=<cps of the default namespace, `-` = none> S=<cps>
   op=uri F=<0|1: urlparse raised> P=<cps of urlparse(...).path> S=<cps>
   op=tz S=<timezone text>   op=tzcanon M=<minutes>   op=dur K=<duration|yearMonthDuration|dayTimeDuration> S=<cps>
   op=hexenc|b64enc Y=<octets, comma separated, `_` = empty>
@@ -365,6 +366,26 @@ def answer (line : String) : String :=
         | x :: r => (Lex.inRanges first x == XSD.inSet sf x) && r.all fun y => Lex.inRanges later y == XSD.inSet sl y
       out m m sp (flags s ++ (if alike then "" else "n"))
     | none => "bad-string"
+  else if op == "qres" then
+    let nsField := field fs "N"
+    let pairs : Option (List (List Char × List Char)) :=
+      if nsField == "-" || nsField == "" then some [] else
+        (nsField.splitOn "|").mapM fun e =>
+          match e.splitOn "/" with
+          | [a, b] => match parseCPs a, parseCPs b with | some x, some y => some (x, y) | _, _ => none
+          | _ => none
+    let dField := field fs "D"
+    match pairs, parseCPs (field fs "S"), (if dField == "-" then some none else (parseCPs dField).map some) with
+    | some known, some s, some d =>
+      let ns := (match d with | some u => [([], u)] | none => []) ++ known
+      let show3 (r : List Char × List Char × List Char) : String := s!"ok:{showCPs r.1}:{showCPs r.2.1}:{showCPs r.2.2}"
+      let m := match Lex.qnameMake (Lex.matchQName Gen.C10.qnamePFirst Gen.C10.qnamePLater Gen.C10.qnameFirst Gen.C10.qnameLater) ns s with
+        | .ok r => show3 r
+        | .error .value => "ERR:V"
+        | .error .nokey => "ERR:K"
+      let sp := match XSD.castToQName known (d.getD []) s with | some r => show3 r | none => "ERR"
+      out m m sp (flags s)
+    | _, _, _ => "bad-string"
   else if op == "uri" then
     match parseCPs (field fs "S"), parseCPs (field fs "P") with
     | some s, some path =>
